@@ -131,3 +131,84 @@ pub fn stream_parts<'a, A: Automaton, R>(
         c.buf.min_buffer_len(),
     )
 }
+
+/// C12: an *abstract searcher*. `try_find` answers a search whose span starts
+/// at `s` with `table[s]` = (present, pattern id, start, end); everything else
+/// of the `Automaton` contract is never reached by the non-overlapping
+/// iterator or the replace drivers. The replace routines are thereby checked
+/// against the splice of whatever the iterator yields, for every search
+/// function (which every real automaton is an instance of).
+pub struct ScriptAut {
+    pub table: [(bool, u8, u8, u8); 8],
+    pub std: bool,
+}
+
+impl private::Sealed for ScriptAut {}
+
+unsafe impl Automaton for ScriptAut {
+    fn start_state(&self, _anchored: Anchored) -> Result<StateID, MatchError> {
+        Ok(StateID::ZERO)
+    }
+    fn next_state(&self, _a: Anchored, _sid: StateID, _b: u8) -> StateID {
+        unreachable!("the abstract searcher is never walked")
+    }
+    fn is_special(&self, _sid: StateID) -> bool {
+        unreachable!("the abstract searcher is never walked")
+    }
+    fn is_dead(&self, _sid: StateID) -> bool {
+        unreachable!("the abstract searcher is never walked")
+    }
+    fn is_match(&self, _sid: StateID) -> bool {
+        unreachable!("the abstract searcher is never walked")
+    }
+    fn is_start(&self, _sid: StateID) -> bool {
+        unreachable!("the abstract searcher is never walked")
+    }
+    fn match_kind(&self) -> MatchKind {
+        if self.std {
+            MatchKind::Standard
+        } else {
+            MatchKind::LeftmostFirst
+        }
+    }
+    fn match_len(&self, _sid: StateID) -> usize {
+        unreachable!("the abstract searcher is never walked")
+    }
+    fn match_pattern(&self, _sid: StateID, _index: usize) -> PatternID {
+        unreachable!("the abstract searcher is never walked")
+    }
+    fn patterns_len(&self) -> usize {
+        2
+    }
+    fn pattern_len(&self, _pid: PatternID) -> usize {
+        unreachable!("the abstract searcher is never walked")
+    }
+    fn min_pattern_len(&self) -> usize {
+        0
+    }
+    fn max_pattern_len(&self) -> usize {
+        8
+    }
+    fn memory_usage(&self) -> usize {
+        0
+    }
+    fn prefilter(&self) -> Option<&Prefilter> {
+        None
+    }
+    fn try_find(
+        &self,
+        input: &Input<'_>,
+    ) -> Result<Option<Match>, MatchError> {
+        if input.is_done() || input.start() >= self.table.len() {
+            return Ok(None);
+        }
+        let (present, pid, s, e) = self.table[input.start()];
+        if !present {
+            return Ok(None);
+        }
+        Ok(Some(Match::new(
+            PatternID::new_unchecked(pid as usize),
+            (s as usize)..(e as usize),
+        )))
+    }
+}
